@@ -222,15 +222,15 @@ PROPS["C03"] = {
              "every count/length byte perturbed (0, 1, ff, +-1) at the first ~40 offsets, truncation at every offset, extension by 1..3 bytes, splices of two valid bodies, random bodies; every (additional-information id, length) and (terminal-parameter id, length) pair; "
              "each case decoded four ways on the Go side: fresh receiver + exact-capacity buffer, spare capacity poisoned with 00 and with ff, receiver that already parsed 0..3 other bodies (2 s watchdog); String() of every successful parse. non-trivial = class label (type:outcome[:reused])."),
     "technique": "Lean 4 proof of bounds safety for the modelled decoders (explicit out-of-range outcome; tables regenerated by go/ast) + four-way differential execution of all decoders on the Go side",
-    "level_text": ("Machine-checked Lean 4 theorems, for every byte string: 35 of the 47 registered decoders are modelled with every slice/index going through a checked accessor that yields `panic` where Go would, and none has a panic outcome: "
+    "level_text": ("Machine-checked Lean 4 theorems, for every byte string: 40 of the 47 registered decoders are modelled with every slice/index going through a checked accessor that yields `panic` where Go would, and none has a panic outcome: "
                    "the twelve fixed-layout Parse methods (field tables regenerated from the source, tiling obligation checked by the kernel; they accept exactly the bodies of the layout's length); the location decoder (0x0200, items of 0x0704, 0x0801) with all additional-information item decoders "
                    "(admissible-length table regenerated from the source); the frame decoder (its checked-access version equals the total model: the length guards cover every access); the attachment control frames 0x1210/0x1211/0x1212 for five dialects; "
-                   "0x0002, 0x8104, 0x9003, 0x0102, 0x0100, 0x8100, 0x9101, 0x9201, 0x9206, 0x1205, 0x9205, 0x9202, 0x8801, 0x1005 and 0x9208 for every version/dialect. "
-                   "PARTIAL: terminal parameters (0x0104/0x8103) and the five vendor extensions have no Lean model; receiver state and memory behind a slice are not expressible in the value model. For ALL 47 decoders the Go side decides the property by differential execution on every run: "
+                   "0x0002, 0x8104, 0x9003, 0x0102, 0x0100, 0x8100, 0x9101, 0x9201, 0x9206, 0x1205, 0x9205, 0x9202, 0x8801, 0x1005 and 0x9208 for every version/dialect; the vendor extensions 0x64, 0x65, 0x67, 0x70 (0x66, open finding F03, is proved to panic exactly on contents of 40 or 40+9n bytes). "
+                   "PARTIAL: terminal parameters (0x0104/0x8103) and the location report with a plugged-in vendor extension have no Lean model; receiver state and memory behind a slice are not expressible in the value model. For ALL 47 decoders the Go side decides the property by differential execution on every run: "
                    "no panic, no hang, same outcome and same value with and without spare capacity (two poisons) and with a reused receiver, String() total. Modelled decoders are additionally compared outcome-by-outcome with the Lean model (about 58 000 bodies per quick run)."),
     "level_note": "Trusted: Lean kernel; extractors; the Go-side four-way oracle and its generators; memory behind a slice and receiver state are not expressible in the value model (decided by execution only). Open finding F03 (extension 0x66) is excluded by signature.",
     "trusted_base": _CODEC_TB,
-    "assumptions": ["the 12 decoders without a Lean model are decided by the Go-side oracle only (sampled)", "String() totality is observed, not proved", "T0x0100.Parse: the protocol version is one the header decoder produces (2011/2013/2019)"],
+    "assumptions": ["the 7 decoder configurations without a Lean model are decided by the Go-side oracle only (sampled)", "String() totality is observed, not proved", "T0x0100.Parse: the protocol version is one the header decoder produces (2011/2013/2019)"],
     "shrink": True,
 }
 
@@ -244,8 +244,10 @@ PROPS["C07"] = {
              "non-trivial = every case (each is a distinct in-domain value)."),
     "technique": "Lean 4 proof of both round-trip directions for fixed layouts (tables regenerated by go/ast), big-endian numbers of any width and counted-list bodies + differential correspondence + Go-side value round-trip oracle for all two-way types",
     "level_text": ("Machine-checked Lean 4 theorems: for the twelve fixed-layout types (offset/width/field tables regenerated from the Go Parse AND Encode methods, equality and tiling checked by the kernel on every run) Encode(Parse b) = b on every accepted body and Parse(Encode v) = v for every value; "
-                   "numbers of any width survive PutUint/Uint and every w-byte string is the encoding of its number; 0x8003 and 0x9212 round-trip at struct level (every range at its own 8-byte position). "
-                   "PARTIAL: the other two-way types (strings, GBK, parameters, 0x0100, 0x0102, 0x9208, 0x1210 ...) have no Lean model and are decided by the Go-side oracle on generated in-domain values on every run; modelled types are also compared byte for byte with the model."),
+                   "numbers of any width survive PutUint/Uint and every w-byte string is the encoding of its number; 0x8003 and 0x9212 round-trip at struct level (every range at its own 8-byte position); "
+                   "seven more types at the value level — 0x8100, 0x9101, 0x9201, 0x9206 (length-prefixed strings), 0x1205 (list of 28-byte records), 0x9102, 0x9207 — with Parse(Encode v) = v for every well-formed value and Encode(Parse b) = b for every accepted body whose BCD time fields hold no nibble 0xA "
+                   "(such bytes are not BCD timestamps; BCD2Time renders 0xA as ':' which Time2BCD strips — the unconditional law is refuted by a kernel-checked counterexample and the condition is exact). "
+                   "PARTIAL: the other two-way types (GBK text, NUL-trimmed strings, parameters, 0x0100, 0x0102, 0x9208, 0x1210 ...) have no Lean model and are decided by the Go-side oracle on generated in-domain values on every run; modelled types are also compared byte for byte with the model."),
     "level_note": "Trusted: Lean kernel; extractor; Go-side generators of in-domain values and reflect-based comparison; GBK conversion (golang.org/x/text) and BCD time strings have no Lean model. Open finding F13 (parameters 0x18/0x19/0x21) is excluded by signature.",
     "trusted_base": _CODEC_TB,
     "assumptions": ["'in-domain' is what the harness generators produce (documented per type in codec_gen.go)", "types without a Lean model are decided by the Go-side oracle only (sampled)"],
